@@ -62,7 +62,134 @@ def _worker(job: dict, hashseed: str) -> dict:
     return json.loads(p.stdout)
 
 
+_threads_ready = False
+
+
+def _setup_threads() -> None:
+    """In-process simulated threads for overlapping compilations (the interpreter-pool runs need none of this)."""
+    global _threads_ready
+    if _threads_ready:
+        return
+    import sim
+    from sim import threads as T
+
+    src = sim.use_repo()
+    import jinja2.debug  # noqa: F401
+    import jinja2.ext  # noqa: F401
+    import jinja2.meta  # noqa: F401
+    import jinja2.sandbox  # noqa: F401
+    import jinja2.utils as U
+
+    T.TOGGLE_LINE[0] = True
+    T.install(src, line_events=True, instr_classes=[U.LRUCache])
+    U.Lock = T.SimLock
+    T.neutralise_real_locks()
+    T.install_threading_factories()
+    _threads_ready = True
+
+
+def run_threads(tape: Tape) -> Outcome:
+    """2-3 simulated threads compile templates at the same time (own or shared Environment), pre-empted at source
+    lines of the whole compilation pipeline.  Every generated source must equal the source the same template gives
+    when it is compiled alone."""
+    _setup_threads()
+    import jinja2
+    from jinja2.sandbox import SandboxedEnvironment
+
+    from sim import threads as T
+    from sim.envs import clear_process_caches
+
+    out = Outcome()
+    cfg = {"async": bool(tape.draw(2)), "sandboxed": tape.draw(4) == 3, "loopcontrols": bool(tape.draw(2)),
+           "autoescape": bool(tape.draw(2))}
+    g = Gen(tape, is_async=cfg["async"], loopcontrols=cfg["loopcontrols"], compile_bias=True, size=2 + tape.draw(3))
+    P = g.generate()
+    names = sorted(P.templates)
+    nt = 2 + tape.draw(2)
+    shared_env = bool(tape.draw(2))
+    progs = [[tape.pick(names) for _ in range(1 + tape.draw(2))] for _ in range(nt)]
+
+    def mk_env():
+        cls = SandboxedEnvironment if cfg["sandboxed"] else jinja2.Environment
+        return cls(enable_async=cfg["async"], autoescape=cfg["autoescape"],
+                   extensions=["jinja2.ext.loopcontrols"] if cfg["loopcontrols"] else [])
+
+    def compile_one(env, name):
+        try:
+            return env.compile(P.templates[name], name, None, raw=True)
+        except T.SimAbort:
+            raise
+        except jinja2.TemplateSyntaxError as e:
+            return "SYNTAXERROR:" + str(e)
+        except Exception as e:
+            return "COMPILER-RAISED:" + type(e).__name__ + ":" + str(e)[:200]
+
+    clear_process_caches()
+    alone = {n: compile_one(mk_env(), n) for n in names}
+
+    def execute(sched_tape, plan, serial):
+        clear_process_caches()
+        env0 = mk_env()
+        env0.lexer  # noqa: B018
+        envs = [env0 if shared_env else mk_env() for _ in range(nt)]
+        for e_ in envs:
+            e_.lexer  # noqa: B018
+        sched = T.Sched(sched_tape, step_cap=3_000_000, line_level=True, wall_cap=60.0)
+        results = [[None] * len(p_) for p_ in progs]
+
+        def body(tid):
+            def fn():
+                for j, n in enumerate(progs[tid]):
+                    results[tid][j] = compile_one(envs[tid], n)
+            return fn
+
+        for tid in range(nt):
+            sched.spawn(body(tid), f"T{tid}")
+        sched.plan(plan)
+        if serial:
+            sched.run_serial()
+        else:
+            sched.run()
+        return sched, results
+
+    s0, r0 = execute(Tape(streams={}), [], True)
+    horizons = [max(th.local_step, 1) for th in s0.threads]
+    plan = []
+    for _ in range(1 + tape.draw(3, "s")):
+        tid = tape.draw(nt, "s")
+        plan.append((tid, 1 + tape.draw(horizons[tid], "s"), tape.draw(nt - 1, "s")))
+    sched, results = execute(tape, plan, False)
+    out.count("thread_compile_runs")
+    out.count("thread_compile_preemptions_fired", sched.preempts_fired)
+    out.count("thread_compile_steps", sched.gstep)
+    out.evals = sum(len(p_) for p_ in progs)
+    out.decoded = {"kind": "concurrent-compile", "cfg": cfg, "shared_environment": shared_env, "templates": P.templates,
+                   "threads": progs, "plan(tid,local_step,target)": plan, "switch_trace": sched.trace[:40]}
+    out.trace = digest([sched.trace, [[digest(x) for x in r_] for r_ in results]])
+    if sched.abort == "deadlock":
+        out.violate(("deadlock-while-compiling",), trace=sched.trace[-5:])
+        return out
+    if sched.abort:
+        raise T.HarnessError("run aborted: " + sched.abort)
+    for th in sched.threads:
+        if th.exc is not None:
+            raise T.HarnessError(f"harness thread raised {th.exc!r}")
+    for tid, p_ in enumerate(progs):
+        for j, n in enumerate(p_):
+            if results[tid][j] != alone[n]:
+                a, b = alone[n] or "", results[tid][j] or ""
+                diff = list(difflib.unified_diff(a.splitlines(), b.splitlines(), "compiled alone", "compiled concurrently", lineterm="", n=1))
+                kind = "concurrent" if r0[tid][j] == alone[n] else "also-serial"
+                out.violate(("generated-source-differs", "overlapping-compilations", kind), thread=tid, template=n, diff=diff[:40])
+                return out
+    if sched.preempts_fired:
+        out.cases = [digest(["tc", P.templates, progs, sched.trace])]
+    return out
+
+
 def run(tape: Tape) -> Outcome:
+    if tape.draw(2, "k") == 1:
+        return run_threads(tape)
     import sim
 
     sim.use_repo()
@@ -113,28 +240,29 @@ def run(tape: Tape) -> Outcome:
         r1.shuffle(o1)
         r1.shuffle(o2)
         unrelated = [corpus[r1.randrange(len(corpus))]["source"] for _ in range(r1.randrange(4))]
-        results.append((hs, _worker({"corpus": corpus, "order1": o1, "order2": o2, "unrelated": unrelated}, hs), o1, o2, unrelated))
+        dseed = 0 if hs == "0" else 1 + r1.randrange(1 << 30)  # the base interpreter runs undisturbed
+        results.append((hs, _worker({"corpus": corpus, "order1": o1, "order2": o2, "unrelated": unrelated, "dseed": dseed}, hs), o1, o2, unrelated, dseed))
     out.count("corpora")
     out.count("templates", len(corpus))
     out.count("interpreters", len(seeds))
     out.count("compilations", 2 * len(corpus) * len(seeds))
     base = results[0][1]["pass1"]
     bad = None
-    for hs, r, o1, o2, unrel in results:
+    for hs, r, o1, o2, unrel, dseed in results:
         for pname in ("pass1", "pass2"):
             for cid in ids:
                 if r[pname][str(cid)] != base[str(cid)] and bad is None:
-                    bad = (cid, hs, pname, o1, o2, unrel)
+                    bad = (cid, hs, pname, o1, o2, unrel, dseed)
     out.trace = digest([base, [r[1]["pass2"] for r in results]])
     out.decoded = {"templates": len(corpus), "hash_seeds": seeds,
                    "sample": {"name": corpus[0]["name"], "cfg": corpus[0]["cfg"], "source": corpus[0]["source"][:400]}}
     if bad:
-        cid, hs, pname, o1, o2, unrel = bad
+        cid, hs, pname, o1, o2, unrel, dseed = bad
         a = _worker({"corpus": corpus, "order1": ids, "order2": ids, "dump": [cid]}, "0")["dumped"][str(cid)]
-        b = _worker({"corpus": corpus, "order1": o1, "order2": o2, "unrelated": unrel, "dump": [cid]}, hs)["dumped"][str(cid)]
+        b = _worker({"corpus": corpus, "order1": o1, "order2": o2, "unrelated": unrel, "dump": [cid], "dseed": dseed}, hs)["dumped"][str(cid)]
         diff = list(difflib.unified_diff(a.splitlines(), b.splitlines(), "PYTHONHASHSEED=0", f"PYTHONHASHSEED={hs}", lineterm="", n=1))
         # same process history under hash seed 0: if that already gives the deviating source, history is the cause
-        c = _worker({"corpus": corpus, "order1": o1, "order2": o2, "unrelated": unrel, "dump": [cid]}, "0")
+        c = _worker({"corpus": corpus, "order1": o1, "order2": o2, "unrelated": unrel, "dump": [cid], "dseed": dseed}, "0")
         kind = "process-history" if (c["dumped"][str(cid)] == b or c["pass1"][str(cid)] != c["pass2"][str(cid)]) else "hash-seed"
         out.violate(("generated-source-differs", kind), template=corpus[cid], hashseed=hs, compile_pass=pname, diff=diff[:60])
         return out
@@ -153,7 +281,13 @@ def unit(index: int, seed: int, tier: str):
         tp = _PinnedTape(base, first_h=0)
     else:
         tp = _PinnedTape(base, first_h=1)
+    tp.streams["k"] = [0]
+    tp.fixed.add("k")
     yield tp, run(tp)
+    # overlapping compilations in this process (simulated threads), several per corpus
+    for j in range(12 if tier == "quick" else 60):
+        tt = Tape(base + 7919 * (j + 1), preset={"k": [1]})
+        yield tt, run(tt)
 
 
 class _PinnedTape(Tape):
